@@ -12,6 +12,8 @@ import time
 
 from . import core
 
+_GIT = __import__("threading").Lock()      # git worktree add / remove are serialised (they edit /repo/.git/worktrees)
+
 
 def run_one(name, only=None, tier="quick"):
     d = os.path.join(core.VERIF, "seeded", name)
@@ -23,7 +25,8 @@ def run_one(name, only=None, tier="quick"):
     tree = os.path.join(work, "tree")
     res = {"name": name, "property": prop}
     try:
-        subprocess.run(["git", "-C", core.REPO, "worktree", "add", "-q", "--detach", tree, "HEAD"], check=True, stdout=subprocess.DEVNULL, stderr=subprocess.DEVNULL)
+        with _GIT:
+            subprocess.run(["git", "-C", core.REPO, "worktree", "add", "-q", "--detach", tree, "HEAD"], check=True, stdout=subprocess.DEVNULL, stderr=subprocess.DEVNULL)
         p = subprocess.run(["git", "-C", tree, "apply", os.path.join(d, "patch.diff")], stdout=subprocess.PIPE, stderr=subprocess.STDOUT)
         if p.returncode != 0:
             res["result"] = "patch_does_not_apply"
@@ -55,7 +58,8 @@ def run_one(name, only=None, tier="quick"):
         res["result"] = "caught" if any(o["exit"] == 1 and o["first_violation"] for o in outs.values()) else "MISSED"
         return res
     finally:
-        subprocess.run(["git", "-C", core.REPO, "worktree", "remove", "--force", tree], stdout=subprocess.DEVNULL, stderr=subprocess.DEVNULL)
+        with _GIT:
+            subprocess.run(["git", "-C", core.REPO, "worktree", "remove", "--force", tree], stdout=subprocess.DEVNULL, stderr=subprocess.DEVNULL)
         shutil.rmtree(work, ignore_errors=True)
 
 
@@ -63,13 +67,15 @@ def main(a):
     only = set(a.arg.split(",")) if a.arg else None
     names = sorted(os.path.basename(os.path.dirname(p)) for p in glob.glob(os.path.join(core.VERIF, "seeded", "*", "meta.json")))
     out = []
-    for n in names:
-        r = run_one(n, only, a.tier)
-        if r:
-            out.append(r)
-            print("%-28s %-4s %s %s replay=%s" % (r["name"], r["property"], r["result"], {c: (o["exit"], o["first_violation"]) for c, o in r.get("checks", {}).items()},
-                                                    r.get("replay", {}).get("ok")))
-            sys.stdout.flush()
+    par = int(os.environ.get("VT_SELFTEST_PAR", "1"))       # VT_SELFTEST_PAR=3: three seeded changes at a time (each in its own scratch worktree)
+    from concurrent.futures import ThreadPoolExecutor
+    with ThreadPoolExecutor(par) as ex:
+        for r in ex.map(lambda n: run_one(n, only, a.tier), names):
+            if r:
+                out.append(r)
+                print("%-28s %-4s %s %s replay=%s" % (r["name"], r["property"], r["result"], {c: (o["exit"], o["first_violation"]) for c, o in r.get("checks", {}).items()},
+                                                        r.get("replay", {}).get("ok")))
+                sys.stdout.flush()
     d = os.path.join(core.VERIF, "selftest")
     os.makedirs(d, exist_ok=True)
     log = os.path.join(d, "last.json")
